@@ -46,20 +46,21 @@ func c14(c *Ctx) {
 		return
 	}
 	hdr := cfgx.LoopHeader(loop)
-	var nameEq, nameNe []cfgx.Edge
-	for _, b := range rec.Blocks {
-		for _, in := range b.Instrs {
-			if bo, ok := in.(*ssa.BinOp); ok && (bo.Op == token.EQL || bo.Op == token.NEQ) && loop[b] {
-				if (hasSuffixCall(bo.X, ".GetName") && hasSuffixCall(bo.Y, ".GetCurrentRevision")) || (hasSuffixCall(bo.Y, ".GetName") && hasSuffixCall(bo.X, ".GetCurrentRevision")) {
-					t, f := cfgx.CondEdges(bo)
-					if bo.Op == token.NEQ {
-						t, f = f, t
+	// name == currentRevision tests inside a given loop
+	nameEdgesIn := func(l map[*ssa.BasicBlock]bool) (eq, ne []cfgx.Edge) {
+		for _, b := range rec.Blocks {
+			for _, in := range b.Instrs {
+				if bo, ok := in.(*ssa.BinOp); ok && (bo.Op == token.EQL || bo.Op == token.NEQ) && l[b] {
+					if (hasSuffixCall(bo.X, ".GetName") && hasSuffixCall(bo.Y, ".GetCurrentRevision")) || (hasSuffixCall(bo.Y, ".GetName") && hasSuffixCall(bo.X, ".GetCurrentRevision")) {
+						t, f := eqEdges(bo)
+						eq, ne = append(eq, t...), append(ne, f...)
 					}
-					nameEq, nameNe = append(nameEq, t...), append(nameNe, f...)
 				}
 			}
 		}
+		return
 	}
+	nameEq, nameNe := nameEdgesIn(loop)
 
 	c.R.Rule("R14.1", "deactivate others first: the current revision is applied only after every other active revision was applied Inactive; no failure is skipped", 7,
 		"two revisions of one package would be Active at once")
@@ -83,7 +84,7 @@ func c14(c *Ctx) {
 				}
 			}
 		}
-		c.R.Check(setInact != nil && cfgx.ReachesInIteration(setInact, deact) && setInact.Block().Dominates(deact.Block()) && sameRecv(setInact, cfgx.CallArgs(deact)[1]), site(deact)+" applies-inactive", c.pos(deact.Pos()), "the revision applied in the loop was just set Inactive", "the revision applied in the loop is not the one set Inactive")
+		c.R.Check(setInact != nil && cfgx.ReachesInIteration(setInact, deact) && cfgx.MustPass(setInact.Block(), deact.Block()) && sameRecv(setInact, cfgx.CallArgs(deact)[1]), site(deact)+" applies-inactive", c.pos(deact.Pos()), "the revision applied in the loop was just set Inactive", "the revision applied in the loop is not the one set Inactive")
 		// skip whitelist: name == current, or state != Active
 		var notActive []cfgx.Edge
 		for _, cf := range findCmps(rec, true, func(x, y ssa.Value) bool {
@@ -179,11 +180,28 @@ func c14(c *Ctx) {
 			var maxPhi *ssa.Phi
 			if good {
 				one, isC := cfgx.ConstInt(bo.Y)
-				maxPhi, _ = bo.X.(*ssa.Phi)
-				good = isC && one == 1 && maxPhi != nil && maxPhi.Block() == hdr
+				maxPhi, _ = viaStruct(bo.X).(*ssa.Phi)
+				good = isC && one == 1 && maxPhi != nil
+			}
+			// the maximum is carried by the revisions loop itself or by a separate,
+			// complete pass over the same listed revisions
+			mloop, mhdr := loop, hdr
+			if good && maxPhi.Block() != hdr {
+				mloop = cfgx.LoopOf(maxPhi.Block())
+				mhdr = nil
+				if mloop != nil {
+					mhdr = cfgx.LoopHeader(mloop)
+				}
+				complete := false
+				if mhdr != nil && maxPhi.Block() == mhdr {
+					okx, _ := cfgx.OnlyHeaderExits(mloop)
+					complete = okx && sameRanged(mloop, loop)
+				}
+				good = complete
 			}
 			c.R.Check(good, site(setRev)+" max+1", c.pos(setRev.Pos()), "the new number is the loop-carried maximum + 1", "the new number is not (running maximum)+1")
 			if good {
+				hdr, loop := mhdr, mloop
 				// the carried value is max(old, revisionNum): back-edge leaves are the phi itself and GetRevision()
 				okMax := true
 				var cmp ssa.Instruction
@@ -283,10 +301,10 @@ func c14(c *Ctx) {
 		var idx ssa.Value
 		for x := range flow.Strict.Back(obj) {
 			if ia, ok := x.(*ssa.IndexAddr); ok {
-				idx = ia.Index
+				idx = viaStruct(ia.Index)
 			}
 			if ia, ok := x.(*ssa.Index); ok {
-				idx = ia.Index
+				idx = viaStruct(ia.Index)
 			}
 		}
 		phi, _ := idx.(*ssa.Phi)
@@ -295,6 +313,22 @@ func c14(c *Ctx) {
 			for _, leaf := range append(phiLeaves(idx), idx) {
 				if p, ok := leaf.(*ssa.Phi); ok && p.Block() == hdr {
 					phi = p
+				}
+			}
+		}
+		// the candidate may be chosen by a separate complete pass over the same revisions
+		hdr, loop, nameNe := hdr, loop, nameNe
+		if phi == nil || phi.Block() != hdr {
+			for _, leaf := range append(phiLeaves(idx), idx) {
+				p, ok := leaf.(*ssa.Phi)
+				if !ok {
+					continue
+				}
+				if l := cfgx.LoopOf(p.Block()); l != nil && cfgx.LoopHeader(l) == p.Block() && sameRanged(l, loop) {
+					if okx, _ := cfgx.OnlyHeaderExits(l); okx {
+						phi, loop, hdr = p, l, p.Block()
+						_, nameNe = nameEdgesIn(l)
+					}
 				}
 			}
 		}
@@ -506,4 +540,29 @@ func leavesStoppingAt(v ssa.Value, stop *ssa.Phi) []ssa.Value {
 	}
 	walk(v)
 	return out
+}
+
+// sameRanged: two loops iterate over the same slice value (the listed revisions).
+func sameRanged(a, b map[*ssa.BasicBlock]bool) bool {
+	ranged := func(l map[*ssa.BasicBlock]bool) map[ssa.Value]bool {
+		out := map[ssa.Value]bool{}
+		for blk := range l {
+			for _, in := range blk.Instrs {
+				switch x := in.(type) {
+				case *ssa.IndexAddr:
+					out[sole(x.X)] = true
+				case *ssa.Index:
+					out[sole(x.X)] = true
+				}
+			}
+		}
+		return out
+	}
+	ra, rb := ranged(a), ranged(b)
+	for v := range ra {
+		if rb[v] {
+			return true
+		}
+	}
+	return false
 }
